@@ -23,6 +23,7 @@ import (
 	sdk "github.com/cosmos/cosmos-sdk/types"
 	upgradetypes "github.com/cosmos/cosmos-sdk/x/upgrade/types"
 	aoltypes "github.com/medibloc/panacea-core/v2/x/aol/types"
+	didtypes "github.com/medibloc/panacea-core/v2/x/did/types"
 	pnfttypes "github.com/medibloc/panacea-core/v2/x/pnft/types"
 )
 
@@ -40,6 +41,34 @@ func rtAccts() []*Acct {
 func genTxs(c *Chain, accts []*Acct, rng *rand.Rand, n int) [][]byte {
 	var txs [][]byte
 	used := map[string]bool{}
+	// the first blocks of a history lay a base state (topic t of the first account, everybody a writer), so
+	// that the random traffic afterwards mostly succeeds
+	{
+		o := accts[0]
+		var qctx sdk.Context
+		if c.InBlock {
+			qctx = c.DeliverCtx()
+		} else {
+			qctx = c.QueryCtx()
+		}
+		var m sdk.Msg
+		if !c.App.AolKeeper.HasTopic(qctx, aoltypes.TopicCompositeKey{OwnerAddress: o.Addr, TopicName: "t"}) {
+			m = &aoltypes.MsgCreateTopicRequest{TopicName: "t", Description: "d", OwnerAddress: o.Bech()}
+		} else {
+			for _, w := range accts {
+				if !c.App.AolKeeper.HasWriter(qctx, aoltypes.WriterCompositeKey{OwnerAddress: o.Addr, TopicName: "t", WriterAddress: w.Addr}) {
+					m = &aoltypes.MsgAddWriterRequest{TopicName: "t", Moniker: "m", WriterAddress: w.Bech(), OwnerAddress: o.Bech()}
+					break
+				}
+			}
+		}
+		if m != nil {
+			if bz, err := c.BuildTx(TxSpec{Msgs: []sdk.Msg{m}, Signers: []SignerSpec{{Acct: o}}, Fee: 1}); err == nil {
+				txs = append(txs, bz)
+				used[o.Name] = true
+			}
+		}
+	}
 	for i := 0; i < n; i++ {
 		a := accts[rng.Intn(len(accts))]
 		if used[a.Name] {
@@ -53,15 +82,23 @@ func genTxs(c *Chain, accts []*Acct, rng *rand.Rand, n int) [][]byte {
 		case 1:
 			m = &aoltypes.MsgAddWriterRequest{TopicName: []string{"t", "u"}[rng.Intn(2)], Moniker: "m", WriterAddress: accts[rng.Intn(len(accts))].Bech(), OwnerAddress: a.Bech()}
 		case 2, 3:
-			m = &aoltypes.MsgAddRecordRequest{TopicName: []string{"t", "u"}[rng.Intn(2)], Key: []byte("k"), Value: smallBytes(rng), WriterAddress: a.Bech(), OwnerAddress: accts[rng.Intn(len(accts))].Bech()}
+			m = &aoltypes.MsgAddRecordRequest{TopicName: []string{"t", "u"}[rng.Intn(2)], Key: []byte("k"), Value: smallBytes(rng), WriterAddress: a.Bech(), OwnerAddress: accts[[]int{0, 0, 0, 1, 2}[rng.Intn(5)]%len(accts)].Bech()}
 		case 4:
 			m = &pnfttypes.MsgCreateDenomRequest{Id: []string{"d1", "d2"}[rng.Intn(2)], Name: "n", Symbol: "s", Creator: a.Bech()}
 		default:
 			m = &pnfttypes.MsgMintPNFTRequest{DenomId: []string{"d1", "d2"}[rng.Intn(2)], Id: fmt.Sprint(rng.Intn(4)), Name: "n", Creator: a.Bech()}
 		}
-		bz, err := c.BuildTx(TxSpec{Msgs: []sdk.Msg{m}, Signers: []SignerSpec{{Acct: a}}, Fee: int64(rng.Intn(3))})
+		msgs := []sdk.Msg{m}
+		if rng.Intn(4) == 0 {
+			// a multi-message transaction whose last message fails: the earlier messages' writes are rolled
+			// back by the transaction layer and must leave no trace anywhere (store, keeper memory, caches)
+			msgs = append(msgs, &aoltypes.MsgAddRecordRequest{TopicName: "no-such-topic", Key: []byte("k"), Value: []byte("v"), WriterAddress: a.Bech(), OwnerAddress: a.Bech()})
+		}
+		bz, err := c.BuildTx(TxSpec{Msgs: msgs, Signers: []SignerSpec{{Acct: a}}, Fee: int64(rng.Intn(3))})
 		if err == nil {
 			txs = append(txs, bz)
+		} else if strings.Contains(err.Error(), "panic") {
+			panic("BuildTx: " + err.Error()) // never silently run empty blocks
 		}
 	}
 	return txs
@@ -76,12 +113,28 @@ func resultKey(r abci.ResponseDeliverTx) string {
 	return fmt.Sprintf("%d|%x|%d|%d|%s|%s", r.Code, r.Data, r.GasUsed, r.GasWanted, r.Codespace, ev)
 }
 
+// delivery statistics since the last emitted monitor line (shown after " #", not part of the verdict)
+var rtDelivered, rtOK, simOK int
+
+func withStats(ans string) string {
+	if !strings.Contains(ans, " #") {
+		ans += fmt.Sprintf(" #delivered=%d ok=%d simulated-ok=%d", rtDelivered, rtOK, simOK)
+	}
+	rtDelivered, rtOK, simOK = 0, 0, 0
+	return ans
+}
+
 // runBlock executes a whole block and returns the per-tx results and the app hash.
 func runBlock(c *Chain, t time.Time, txs [][]byte) ([]string, []byte) {
 	c.Begin(t)
 	var rs []string
 	for _, tx := range txs {
-		rs = append(rs, resultKey(c.Deliver(tx)))
+		r := c.Deliver(tx)
+		rtDelivered++
+		if r.Code == 0 {
+			rtOK++
+		}
+		rs = append(rs, resultKey(r))
 	}
 	eb := c.End()
 	evs, _ := json.Marshal(eb.Events)
@@ -163,7 +216,7 @@ func init() {
 					}
 					return "pass"
 				})
-				s.Emit(fmt.Sprintf("mon.c10.block history=%d block=%d crash=%d txs=%d", h, bl, crash, len(txs)), ans)
+				s.Emit(fmt.Sprintf("mon.c10.block history=%d block=%d crash=%d txs=%d", h, bl, crash, len(txs)), withStats(ans))
 			}
 		}
 	}
@@ -187,8 +240,12 @@ func init() {
 					old := runtime.GOMAXPROCS(1 + rng.Intn(4))
 					defer runtime.GOMAXPROCS(old)
 					for _, tx := range txs {
+						// simulate first: CheckTx advances the check-state sequence, after which the same
+						// bytes would fail the ante handler in a simulation and never reach the messages
+						if _, res, err := b.App.Simulate(tx); err == nil && res != nil {
+							simOK++
+						}
 						b.App.CheckTx(abci.RequestCheckTx{Tx: tx, Type: abci.CheckTxType_New})
-						b.App.Simulate(tx)
 					}
 					b.App.Query(abci.RequestQuery{Path: "/panacea.aol.v2.Query/Topics", Data: nil})
 					time.Sleep(time.Duration(rng.Intn(3)) * time.Millisecond)
@@ -202,7 +259,80 @@ func init() {
 					}
 					return "pass"
 				})
-				s.Emit(fmt.Sprintf("mon.c09.block history=%d block=%d txs=%d", h, bl, len(txs)), ans)
+				s.Emit(fmt.Sprintf("mon.c09.block history=%d block=%d txs=%d", h, bl, len(txs)), withStats(ans))
+			}
+			// "simulated, then the chain went another way": replica b alone simulates a transaction whose later
+			// messages are valid only after its own first message; the block that is really delivered takes a
+			// different first step. Nothing a replica has merely simulated may influence what it then delivers.
+			{
+				k1, k2 := newDidKey(fmt.Sprintf("det-%d-k1", h)), newDidKey(fmt.Sprintf("det-%d-k2", h))
+				did := didtypes.NewDID(k1.pub)
+				vmID := did + "#key1"
+				docWith := func(k *didKey, svc string) *didtypes.DIDDocument {
+					vm := &didtypes.VerificationMethod{Id: vmID, Type: didtypes.ES256K_2019, Controller: did, PublicKeyBase58: k.b58}
+					d := didtypes.NewDIDDocument(did, didtypes.WithVerificationMethods([]*didtypes.VerificationMethod{vm}),
+						didtypes.WithAuthentications([]didtypes.VerificationRelationship{rel(vmID)}))
+					if svc != "" {
+						d.Services = []*didtypes.Service{{Id: "s1", Type: "T", ServiceEndpoint: svc}}
+					}
+					return &d
+				}
+				sign := func(k *didKey, d *didtypes.DIDDocument, seq uint64) []byte {
+					sg, err := didtypes.Sign(d, seq, k.priv)
+					if err != nil {
+						panic(err)
+					}
+					return sg
+				}
+				A := accts[0]
+				tx := func(c *Chain, msgs ...sdk.Msg) []byte {
+					bz, err := c.BuildTx(TxSpec{Msgs: msgs, Signers: []SignerSpec{{Acct: A}}, Fee: 1})
+					if err != nil {
+						panic(err)
+					}
+					return bz
+				}
+				d0 := docWith(k1, "")
+				create := &didtypes.MsgCreateDIDRequest{Did: did, Document: d0, VerificationMethodId: vmID, Signature: sign(k1, d0, 0), FromAddress: A.Bech()}
+				rot := docWith(k2, "")           // rotate k1 -> k2, signed by k1 at sequence 0
+				keep := docWith(k1, "https://a") // competing update keeping k1, signed by k1 at sequence 0
+				follow := docWith(k2, "https://b") // signed by k2 at sequence 1: valid only after the rotation
+				mRot := &didtypes.MsgUpdateDIDRequest{Did: did, Document: rot, VerificationMethodId: vmID, Signature: sign(k1, rot, 0), FromAddress: A.Bech()}
+				mKeep := &didtypes.MsgUpdateDIDRequest{Did: did, Document: keep, VerificationMethodId: vmID, Signature: sign(k1, keep, 0), FromAddress: A.Bech()}
+				mFollow := &didtypes.MsgUpdateDIDRequest{Did: did, Document: follow, VerificationMethodId: vmID, Signature: sign(k2, follow, 1), FromAddress: A.Bech()}
+				ans := guard(func() string {
+					// replica a runs the three blocks first, replica b afterwards: package-level state is shared by
+					// the twins of this process, and in this order nothing b does can leak into a
+					t1, t2, t3 := t.Add(5*time.Second), t.Add(10*time.Second), t.Add(15*time.Second)
+					t = t3
+					c1 := tx(a, create)
+					ra1, ha1 := runBlock(a, t1, [][]byte{c1})
+					x1 := tx(a, mKeep)
+					ra2, ha2 := runBlock(a, t2, [][]byte{x1})
+					x2 := tx(a, mFollow)
+					ra3, ha3 := runBlock(a, t3, [][]byte{x2})
+					rb1, hb1 := runBlock(b, t1, [][]byte{c1})
+					// replica b only: simulate [rotate, follow-up] (succeeds in the simulation, is discarded)
+					if _, res, err := b.App.Simulate(tx(b, mRot, mFollow)); err == nil && res != nil {
+						simOK++
+					}
+					rb2, hb2 := runBlock(b, t2, [][]byte{x1})
+					rb3, hb3 := runBlock(b, t3, [][]byte{x2})
+					if strings.Join(ra1, "\n") != strings.Join(rb1, "\n") || !bytes.Equal(ha1, hb1) {
+						return "fail #create-differs"
+					}
+					if strings.Join(ra2, "\n") != strings.Join(rb2, "\n") || !bytes.Equal(ha2, hb2) {
+						return "fail #competing-update-differs"
+					}
+					if strings.Join(ra3, "\n") != strings.Join(rb3, "\n") {
+						return "fail #deliver-results-differ-after-simulation-on-one-replica"
+					}
+					if !bytes.Equal(ha3, hb3) {
+						return "fail #apphash-differs-after-simulation-on-one-replica"
+					}
+					return "pass"
+				})
+				s.Emit(fmt.Sprintf("mon.c09.block history=%d scenario=simulated-then-diverged", h), withStats(ans))
 			}
 		}
 		// F12: an AOL genesis that spells one store key in two ways, imported repeatedly
@@ -325,15 +455,31 @@ func init() {
 			panic(err)
 		}
 		owner := accts[0].Bech()
-		q := func(height int64) string {
-			req := aoltypes.QueryTopicsRequest{OwnerAddress: owner}
-			bz, _ := req.Marshal()
-			r := a.App.Query(abci.RequestQuery{Path: "/panacea.aol.v2.Query/Topics", Data: bz, Height: height})
+		// two kinds of reads: a listing (store iterator) and a single item (store Get)
+		kinds := []string{"listing", "item"}
+		q := func(kind string, height int64) string {
+			var r abci.ResponseQuery
+			if kind == "listing" {
+				req := aoltypes.QueryTopicsRequest{OwnerAddress: owner}
+				bz, _ := req.Marshal()
+				r = a.App.Query(abci.RequestQuery{Path: "/panacea.aol.v2.Query/Topics", Data: bz, Height: height})
+			} else {
+				req := aoltypes.QueryTopicRequest{OwnerAddress: owner, TopicName: "t0"}
+				bz, _ := req.Marshal()
+				r = a.App.Query(abci.RequestQuery{Path: "/panacea.aol.v2.Query/Topic", Data: bz, Height: height})
+			}
 			return fmt.Sprintf("%d:%x", r.Code, r.Value)
 		}
+		type obs struct {
+			kind string
+			h    int64
+			got  string
+		}
 		var mu sync.Mutex
-		oracle := map[int64]string{} // height -> answer recorded right after that height was committed
-		bad := ""
+		oracle := map[string]string{} // kind@height -> answer recorded right after that height was committed
+		var heights []int64
+		var wrong []obs
+		nq := 0
 		stop := make(chan struct{})
 		var wg sync.WaitGroup
 		for g := 0; g < 4; g++ {
@@ -348,19 +494,22 @@ func init() {
 					default:
 					}
 					mu.Lock()
-					var hs []int64
-					for h := range oracle {
-						hs = append(hs, h)
-					}
+					hs := append([]int64{}, heights...)
 					mu.Unlock()
 					if len(hs) == 0 {
 						continue
 					}
-					h := hs[r.Intn(len(hs))]
-					got := q(h)
+					// mostly the most recent heights (where readers and the committing writer meet), sometimes any
+					h := hs[len(hs)-1-r.Intn(min(2, len(hs)))]
+					if r.Intn(3) == 0 {
+						h = hs[r.Intn(len(hs))]
+					}
+					kind := kinds[r.Intn(2)]
+					got := q(kind, h)
 					mu.Lock()
-					if want := oracle[h]; got != want && bad == "" {
-						bad = fmt.Sprintf("height %d: answer changed while blocks were executing", h)
+					nq++
+					if want := oracle[fmt.Sprintf("%s@%d", kind, h)]; got != want {
+						wrong = append(wrong, obs{kind, h, got})
 					}
 					mu.Unlock()
 				}
@@ -369,24 +518,53 @@ func init() {
 		t := a.Time
 		for bl := 0; bl < 12*n; bl++ {
 			t = t.Add(5 * time.Second)
-			m := &aoltypes.MsgCreateTopicRequest{TopicName: fmt.Sprintf("t%d", bl), Description: "d", OwnerAddress: owner}
-			bz, _ := a.BuildTx(TxSpec{Msgs: []sdk.Msg{m}, Signers: []SignerSpec{{Acct: accts[0]}}, Fee: 1})
+			msgs := []sdk.Msg{&aoltypes.MsgCreateTopicRequest{TopicName: fmt.Sprintf("t%d", bl), Description: fmt.Sprintf("d%d", bl), OwnerAddress: owner}}
+			if bl > 0 {
+				// also rewrite the item the item query reads (total_writers changes every block)
+				w := newAcct("w", []byte(fmt.Sprintf("conc-w-%d", bl)))
+				msgs = append(msgs, &aoltypes.MsgAddWriterRequest{TopicName: "t0", Moniker: "m", WriterAddress: w.Bech(), OwnerAddress: owner})
+			}
+			bz, err := a.BuildTx(TxSpec{Msgs: msgs, Signers: []SignerSpec{{Acct: accts[0]}}, Fee: 1})
+			if err != nil {
+				panic(err)
+			}
+			a.App.CheckTx(abci.RequestCheckTx{Tx: bz, Type: abci.CheckTxType_New})
+			a.App.Simulate(bz)
 			a.Begin(t)
-			a.Deliver(bz)
+			if r := a.Deliver(bz); r.Code != 0 {
+				panic("conc: tx failed: " + r.Log)
+			}
 			time.Sleep(time.Millisecond)
 			a.End()
 			a.Commit()
-			ans := q(a.Height)
 			mu.Lock()
-			oracle[a.Height] = ans
+			for _, k := range kinds {
+				oracle[fmt.Sprintf("%s@%d", k, a.Height)] = q(k, a.Height)
+			}
+			heights = append(heights, a.Height)
 			mu.Unlock()
 		}
 		close(stop)
 		wg.Wait()
-		if bad != "" {
-			s.Emit("mon.c20.snapshots", "fail #"+bad)
-		} else {
-			s.Emit("mon.c20.snapshots", "pass")
+		// classify what the readers saw that differs from the committed snapshot of the height they asked for
+		for _, kind := range kinds {
+			ans := "pass"
+			for _, o := range wrong {
+				if o.kind != kind {
+					continue
+				}
+				if o.got == oracle[fmt.Sprintf("%s@%d", kind, o.h+1)] {
+					if !strings.HasPrefix(ans, "fail #not-a-committed") {
+						ans = fmt.Sprintf("fail #query-at-height-saw-the-next-committed-height (asked %d)", o.h)
+					}
+				} else {
+					ans = fmt.Sprintf("fail #not-a-committed-state (asked %d, got %.80s)", o.h, o.got)
+				}
+			}
+			if ans == "pass" {
+				ans = fmt.Sprintf("pass #queries=%d blocks=%d", nq, 12*n)
+			}
+			s.Emit("mon.c20.snapshots kind="+kind, ans)
 		}
 	}
 	_ = os.Getenv
